@@ -73,7 +73,7 @@ fn local_released_below(tx: &Tx, t: &[u64; 2], bound: u64) {
 // ---- C03-Ob2 / C10-Ob2: writer begin releases with bound = oldest open reader, or committed + 1 when none is open.
 //      Decided at the call site: Freelist::release is replaced by a recorder (its effect for every bound is
 //      fl_release_step); everything else in Tx::new is the real code.
-// @ob props=C03,C10,C06 tier=quick cap=400 fns=Tx::new,DBInner::meta,TxFreelist::new,InnerBucket::from_meta,Pages::page,Pages::new bound="committed id 7; reader list of 2 sorted ids <= 7 (any, duplicates allowed)" unwind=5
+// @ob props=C03,C10,C06 tier=quick cap=400 fns=Tx::new,DBInner::meta,TxFreelist::new,InnerBucket::from_meta,Pages::page,Pages::new bound="committed id 7; reader list of 2 sorted ids <= 7 (any, duplicates allowed)" unwind=5 native=no
 #[kani::proof]
 #[kani::unwind(5)]
 #[kani::stub(crate::freelist::Freelist::release, crate::freelist::jv::release_recorder)]
@@ -107,7 +107,7 @@ fn tx_begin_writer_release_bound() {
     }
 }
 
-// @ob props=C03,C10 tier=quick cap=400 fns=Tx::new,DBInner::meta bound="committed id 7; no reader open" unwind=5
+// @ob props=C03,C10 tier=quick cap=400 fns=Tx::new,DBInner::meta bound="committed id 7; no reader open" unwind=5 native=no
 #[kani::proof]
 #[kani::unwind(5)]
 #[kani::stub(crate::freelist::Freelist::release, crate::freelist::jv::release_recorder)]
@@ -263,3 +263,395 @@ fn tx_readonly_guards() {
 
 
 
+
+// =====================================================================================================
+// The commit I/O sequence: TxInner::write_data, reached through the real Tx::commit on a transaction
+// whose root bucket is untouched (rebalance / spill return at once) and whose dirty page is injected
+// through the real TxFreelist::allocate, as the repository's own unit tests do.
+//
+// Pre-state (12 pages of 256 bytes): header slot 1 newest (tx 7), slot 0 older (tx 6); free-list page 2
+// lists {4, 5}; root leaf 3; pages 6..11 in use; shared free list: free {4, 5}, nothing pending.
+// The writer (tx 8) dirties one 40-byte page (gets page 4) and commits.  Expected plan:
+//   write page 4 (40 bytes @1024), write the new free-list page 5 (56 bytes @1280), [sync], write header
+//   slot 0 (256 bytes @0), flush, sync; shared free list := {free: {}, pending: {8: [2]}}.
+// =====================================================================================================
+
+fn commit_db(strict: bool) -> &'static DB {
+    let db = mk_db(&[4, 5], strict);
+    let mut fl = Freelist::new();
+    fj::push_free(&mut fl, 4);
+    fj::push_free(&mut fl, 5);
+    {
+        let mut g = db.inner.freelist.lock().unwrap();
+        *g = fl;
+    }
+    // pages 6..11 carry a recognisable pattern so that a stray write is visible
+    let d = jv_env::disk();
+    let mut w = (6 * PS / 8) as usize;
+    while w < (12 * PS / 8) as usize {
+        d.words[w] = 0x5a5a_0000_0000_0000 | w as u64;
+        w += 1;
+    }
+    db
+}
+
+/// begin the writer and dirty one leaf page; returns the transaction
+fn begin_and_dirty(db: &'static DB) -> Option<Tx<'static>> {
+    match db.tx(true) {
+        Ok(tx) => {
+            {
+                let inner = tx.inner.borrow();
+                let mut tf = inner.freelist.borrow_mut();
+                match tf.allocate(40) {
+                    Ok(p) => {
+                        p.page_type = Page::TYPE_LEAF;
+                        p.count = 0;
+                    }
+                    Err(e) => std::mem::forget(e),
+                }
+            }
+            Some(tx)
+        }
+        Err(e) => {
+            std::mem::forget(e);
+            None
+        }
+    }
+}
+
+fn untouched_pages_ok() {
+    let d = jv_env::disk();
+    let mut w = (6 * PS / 8) as usize;
+    while w < (12 * PS / 8) as usize {
+        assert!(d.words[w] == 0x5a5a_0000_0000_0000 | w as u64, "copy-on-write: pages in use are never written");
+        w += 1;
+    }
+}
+
+// ---- C02-Ob1 / C05 / C10-Ob4: the write plan of a commit
+// @ob props=C02,C05,C10,C06 tier=quick cap=900 mem=16 fns=Tx::commit,TxInner::write_data,TxFreelist::free,TxFreelist::allocate,Freelist::pages,Freelist::size,Page::freelist_mut,Page::meta_mut,Meta::hash_self,DBInner::meta bound="12-page file, one dirty 40-byte page, free set {4,5}, no reader, no growth, strict mode off" unwind=260
+#[kani::proof]
+#[kani::unwind(260)]
+fn tx_commit_write_plan() {
+    let db = commit_db(false);
+    let tx = match begin_and_dirty(db) {
+        Some(t) => t,
+        None => return,
+    };
+    let d = jv_env::disk();
+    assert!(d.nops == 0);
+    let r = tx.commit();
+    assert!(r.is_ok(), "a commit without I/O faults succeeds");
+    std::mem::forget(r);
+    // --- the op log
+    assert!(!d.oob);
+    assert!(d.nwrites() == 3, "exactly three writes: dirty page, free-list page, header");
+    let mut wi = [0usize; 3];
+    let mut n = 0usize;
+    let mut i = 0usize;
+    while i < jv_env::fs::MAXOPS {
+        if i < d.nops && d.ops[i].kind == jv_env::fs::OP_WRITE {
+            wi[n] = i;
+            n += 1;
+        }
+        i += 1;
+    }
+    let (a, b, h) = (d.ops[wi[0]], d.ops[wi[1]], d.ops[wi[2]]);
+    assert!(a.off == 4 * PS && a.len == 40, "dirty page 4 written at id * pagesize, once");
+    assert!(b.off == 5 * PS && b.len == 56, "new free-list page 5 (sized for free + pending before it takes page 5 itself)");
+    assert!(h.off == 0 && h.len == PS, "the header goes to the slot that does not hold the current header");
+    // --- syncs: data pages are durable before the header is written; the header write is followed by a completed sync
+    assert!(h.epoch > a.epoch && h.epoch > b.epoch, "a completed sync separates the data pages from the header that refers to them");
+    let last = d.ops[d.nops - 1];
+    assert!(last.kind == jv_env::fs::OP_SYNC, "commit ends with a completed sync");
+    assert!(d.epoch >= 1);
+    // --- contents
+    untouched_pages_ok();
+    assert!(d.byte(5 * 256 + 8) == Page::TYPE_FREELIST && d.word(5 * 256 + 16) == 1 && d.word(5 * 256 + 32) == 2, "free-list page lists free + pending = page 2");
+    assert!(d.byte(4 * 256 + 8) == Page::TYPE_LEAF && d.word(4 * 256) == 4);
+    let m = db.inner.meta();
+    assert!(m.is_ok());
+    if let Ok(m) = m {
+        assert!(m.tx_id == C + 1 && m.meta_page == 0 && m.root.root_page == 3 && m.num_pages == 12 && m.freelist_page == 5 && m.pagesize == PS,
+                "the new header is valid, newest, and carries the transaction's id / root / high-water mark / free-list page");
+    }
+    // --- slot 1 (the previous header) is untouched
+    assert!(d.word(256 + 32 + 56) == C, "the previous header stays in place");
+    // --- shared free list published
+    let fl = db.inner.freelist.peek();
+    assert!(fj::n_free(fl) == 0, "page 4 and 5 were taken from the free set");
+    let p = fj::pending_of(fl, C + 1);
+    assert!(p.is_some());
+    if let Some(p) = p {
+        assert!(p.len() == 1 && p[0] == 2, "the old free-list page is pending under the committing transaction");
+    }
+    assert!(!db.inner.file.is_held(), "the writer lock is released");
+}
+
+static mut PRE: [u64; 512] = [0; 512];
+static mut IMG: [u64; 512] = [0; 512];
+
+fn snapshot_pre() {
+    let d = jv_env::disk();
+    let mut w = 0;
+    while w < 384 {
+        unsafe { PRE[w] = d.words[w] };
+        w += 1;
+    }
+}
+
+/// a DBInner whose map is the synthesised crash image (what a reopen after the crash would map)
+fn reopen_image() -> crate::db::DBInner {
+    let file = jv_env::File::raw();
+    let map = memmap2::Mmap::from_raw(unsafe { std::ptr::addr_of!(IMG) as *const u8 }, 12 * PS as usize);
+    crate::db::DBInner {
+        data: jv_env::Mutex::new(Arc::new(map)),
+        mmap_lock: jv_env::RwLock::new(()),
+        freelist: jv_env::Mutex::new(Freelist::new()),
+        file: jv_env::Mutex::new(file),
+        open_ro_txs: jv_env::Mutex::new(Vec::new()),
+        flags: flags(false),
+        pagesize: PS,
+    }
+}
+
+/// IMG := PRE, then for every logged write i with apply(i): the bytes of that write (word granular,
+/// all writes of a commit are word multiples) taken from the final disk, restricted to `hdr_words`
+/// for the header write when given (8-byte tearing)
+fn build_image(apply: &[bool; jv_env::fs::MAXOPS], hdr_op: usize, hdr_words: u32) {
+    let d = jv_env::disk();
+    let mut w = 0;
+    while w < 384 {
+        unsafe { IMG[w] = PRE[w] };
+        w += 1;
+    }
+    let mut i = 0;
+    while i < jv_env::fs::MAXOPS {
+        if i < d.nops && d.ops[i].kind == jv_env::fs::OP_WRITE && apply[i] {
+            let first = (d.ops[i].off / 8) as usize;
+            let nw = (d.ops[i].len / 8) as usize;
+            let mut j = 0;
+            while j < nw {
+                let torn_away = i == hdr_op && j < 32 && (hdr_words >> j) & 1 == 0;
+                if !torn_away {
+                    unsafe { IMG[first + j] = d.words[first + j] };
+                }
+                j += 1;
+            }
+        }
+        i += 1;
+    }
+}
+
+fn index_of_header_write() -> usize {
+    let d = jv_env::disk();
+    let mut h = jv_env::fs::MAXOPS;
+    let mut i = 0;
+    while i < jv_env::fs::MAXOPS {
+        if i < d.nops && d.ops[i].kind == jv_env::fs::OP_WRITE && d.ops[i].off < 2 * PS {
+            h = i;
+        }
+        i += 1;
+    }
+    h
+}
+
+/// the state a reopen of IMG shows must be exactly the previous commit (tx 7) or exactly the new one (tx 8),
+/// and in the latter case every page the new header refers to must hold what the commit wrote
+fn image_is_old_or_new() -> bool {
+    let d = jv_env::disk();
+    let re = reopen_image();
+    let m = re.meta();
+    assert!(m.is_ok(), "reopening a crash image never fails");
+    let mut is_new = false;
+    if let Ok(m) = m {
+        if m.tx_id == C + 1 {
+            is_new = true;
+            assert!(m.meta_page == 0 && m.root.root_page == 3 && m.num_pages == 12 && m.freelist_page == 5);
+            // the pages the new state consists of were written by this commit: they must be in the image
+            let mut w = (4 * PS / 8) as usize;
+            while w < (4 * PS / 8) as usize + 5 {
+                assert!(unsafe { IMG[w] } == d.words[w], "new header visible => the dirty page it depends on is durable");
+                w += 1;
+            }
+            let mut w = (5 * PS / 8) as usize;
+            while w < (5 * PS / 8) as usize + 7 {
+                assert!(unsafe { IMG[w] } == d.words[w], "new header visible => the new free-list page is durable");
+                w += 1;
+            }
+        } else {
+            assert!(m.tx_id == C && m.meta_page == 1 && m.root.root_page == 3 && m.num_pages == 12 && m.freelist_page == 2,
+                    "otherwise exactly the previous commit is shown");
+            // and what the previous state consists of is intact
+            assert!(unsafe { IMG[(2 * PS / 8) as usize + 2] } == 2 && unsafe { IMG[(2 * PS / 8) as usize + 4] } == 4, "old free-list page intact");
+        }
+    }
+    std::mem::forget(re);
+    is_new
+}
+
+// ---- C02-Ob2: process kill = any prefix of the file operations of a commit
+// @ob props=C02 tier=quick cap=1200 mem=16 fns=Tx::commit,TxInner::write_data,DBInner::meta,Page::meta,Meta::valid bound="the commit of tx_commit_write_plan; crash after any prefix k of its logged file operations (k symbolic)" unwind=520
+#[kani::proof]
+#[kani::unwind(520)]
+fn tx_commit_crash_prefix() {
+    let db = commit_db(false);
+    snapshot_pre();
+    let tx = match begin_and_dirty(db) {
+        Some(t) => t,
+        None => return,
+    };
+    let r = tx.commit();
+    assert!(r.is_ok());
+    std::mem::forget(r);
+    let d = jv_env::disk();
+    let k: usize = kani::any();
+    kani::assume(k <= d.nops);
+    let mut apply = [false; jv_env::fs::MAXOPS];
+    let mut i = 0;
+    while i < jv_env::fs::MAXOPS {
+        apply[i] = i < k;
+        i += 1;
+    }
+    let h = index_of_header_write();
+    assert!(h < jv_env::fs::MAXOPS);
+    build_image(&apply, h, u32::MAX);
+    let is_new = image_is_old_or_new();
+    assert!(is_new == (k > h), "the commit becomes visible exactly when the header write has happened");
+    kani::cover!(k == 0);
+    kani::cover!(k == h);
+    kani::cover!(k == d.nops);
+    untouched_pages_ok();
+}
+
+// ---- C02-Ob3: power loss = operations issued after the last completed sync persist in any subset; data
+//      writes atomically (each lies inside one 512-byte sector), the header write torn at 8-byte words
+// @ob props=C02 tier=quick cap=1800 mem=24 fns=Tx::commit,TxInner::write_data,DBInner::meta,Page::meta,Meta::valid,Meta::hash_self bound="the commit of tx_commit_write_plan; power loss after any prefix k; every subset of the unsynced writes; header torn at any 8-byte word mask over its 13 record words" unwind=520
+#[kani::proof]
+#[kani::unwind(520)]
+fn tx_commit_power_loss() {
+    let db = commit_db(false);
+    snapshot_pre();
+    let tx = match begin_and_dirty(db) {
+        Some(t) => t,
+        None => return,
+    };
+    let r = tx.commit();
+    assert!(r.is_ok());
+    std::mem::forget(r);
+    let d = jv_env::disk();
+    let k: usize = kani::any();
+    kani::assume(k <= d.nops);
+    // number of syncs completed among the first k operations
+    let mut synced: u32 = 0;
+    let mut i = 0;
+    while i < jv_env::fs::MAXOPS {
+        if i < k && i < d.nops && d.ops[i].kind == jv_env::fs::OP_SYNC {
+            synced += 1;
+        }
+        i += 1;
+    }
+    let keep: [bool; jv_env::fs::MAXOPS] = kani::any();
+    let mut apply = [false; jv_env::fs::MAXOPS];
+    let mut i = 0;
+    while i < jv_env::fs::MAXOPS {
+        // issued before the crash, and either made durable by a later completed sync or kept by chance
+        apply[i] = i < k && i < d.nops && (d.ops[i].epoch < synced || keep[i]);
+        i += 1;
+    }
+    let h = index_of_header_write();
+    let mask: u32 = kani::any();
+    // if the header write was made durable by a sync it is complete; otherwise any word subset
+    let hdr_durable = h < k && d.ops[h].epoch < synced;
+    let hdr_words = if hdr_durable { u32::MAX } else { mask | 0xffff_e000 };
+    build_image(&apply, h, hdr_words);
+    let is_new = image_is_old_or_new();
+    if k == d.nops {
+        assert!(is_new, "once commit has returned success its effects survive a power loss");
+    }
+    kani::cover!(is_new && k < d.nops);
+    kani::cover!(!is_new && k > h);
+    kani::cover!(!is_new && apply[h] && !hdr_durable, "a torn header falls back to the previous commit");
+}
+
+// ---- C11: one I/O call of the commit fails (error, or a short write followed by an error).
+// The failing call index is concrete per harness (a symbolic index forks the whole commit at every call and
+// did not finish symbolic execution in 30 min); the harnesses together enumerate every fallible call of the
+// commit: 0 metadata, 1 seek, 2 write(page 4), 3 seek, 4 write(free list), 5 flush, 6 sync, 7 seek,
+// 8 write(header), 9 flush, 10 sync.
+fn commit_with_fault(f: usize, short: usize) {
+    let db = commit_db(false);
+    snapshot_pre();
+    let tx = match begin_and_dirty(db) {
+        Some(t) => t,
+        None => return,
+    };
+    let d = jv_env::disk();
+    d.fail_at = f;
+    d.short_len = short;
+    let r = tx.commit();
+    let failed = d.nfailed > 0;
+    assert!(failed, "the fault plan names a call the commit really issues");
+    assert!(matches!(r, Err(Error::Io(_))), "an I/O failure is reported as an error (and nothing panicked)");
+    std::mem::forget(r);
+    assert!(!db.inner.file.is_held(), "the writer lock is released either way");
+    untouched_pages_ok();
+    // slot 1 (previous header), old free-list page 2 and root page 3 are never written
+    let mut w = (PS / 8) as usize;
+    while w < (2 * PS / 8) as usize {
+        assert!(d.words[w] == unsafe { PRE[w] }, "previous header untouched");
+        w += 1;
+    }
+    assert!(d.word(2 * 256 + 16) == 2 && d.word(2 * 256 + 32) == 4 && d.word(2 * 256 + 40) == 5, "previous free-list page untouched");
+    let m = db.inner.meta();
+    assert!(m.is_ok(), "the file still has a valid header");
+    let fl = db.inner.freelist.peek();
+    if let Ok(m) = m {
+        // exactly the pre-transaction or exactly the post-transaction state
+        assert!((m.tx_id == C && m.freelist_page == 2 && m.meta_page == 1) || (m.tx_id == C + 1 && m.freelist_page == 5 && m.meta_page == 0));
+        if m.tx_id == C {
+            assert!(fj::n_free(fl) == 2 && fj::is_free(fl, 4) && fj::is_free(fl, 5) && fj::n_pending_lists(fl) == 0,
+                    "pre-transaction state on disk: the in-memory free list is the pre-transaction one");
+        } else {
+            // the new header reached the file although commit reported an error: the handle must not
+            // go on offering the pages the new state lives in
+            assert!(!fj::is_free(fl, 5) && !fj::is_free(fl, 4),
+                    "JV-C11-STALE: the failed commit's header is in the file but the in-memory free list still offers its pages");
+        }
+    }
+}
+
+macro_rules! fault_harness {
+    ($name:ident, $f:expr, $short:expr) => {
+        #[kani::proof]
+        #[kani::unwind(520)]
+        fn $name() {
+            commit_with_fault($f, $short);
+        }
+    };
+}
+
+// @ob props=C11,C06 tier=thorough cap=1200 mem=16 fns=Tx::commit,TxInner::write_data bound="failing call 0: file.metadata()" unwind=520
+fault_harness!(tx_commit_fault_00_metadata, 0, 0);
+// @ob props=C11,C06 tier=thorough cap=1200 mem=16 fns=Tx::commit,TxInner::write_data bound="failing call 1: seek to the first dirty page" unwind=520
+fault_harness!(tx_commit_fault_01_seek, 1, 0);
+// @ob props=C11,C06 tier=quick cap=1200 mem=16 fns=Tx::commit,TxInner::write_data,DBInner::meta bound="failing call 2: write of the first dirty page (error)" unwind=520
+fault_harness!(tx_commit_fault_02_write, 2, 0);
+// @ob props=C11,C06 tier=thorough cap=1200 mem=16 fns=Tx::commit,TxInner::write_data,DBInner::meta bound="call 2 is a short write of 8 bytes, the next call fails" unwind=520
+fault_harness!(tx_commit_fault_02_short, 2, 8);
+// @ob props=C11,C06 tier=thorough cap=1200 mem=16 fns=Tx::commit,TxInner::write_data bound="failing call 4: write of the free-list page" unwind=520
+fault_harness!(tx_commit_fault_04_write, 4, 0);
+// @ob props=C11,C06 tier=thorough cap=1200 mem=16 fns=Tx::commit,TxInner::write_data bound="failing call 5: flush after the data pages" unwind=520
+fault_harness!(tx_commit_fault_05_flush, 5, 0);
+// @ob props=C11,C06 tier=quick cap=1200 mem=16 fns=Tx::commit,TxInner::write_data,DBInner::meta bound="failing call 6: sync after the data pages" unwind=520
+fault_harness!(tx_commit_fault_06_sync, 6, 0);
+// @ob props=C11,C06 tier=thorough cap=1200 mem=16 fns=Tx::commit,TxInner::write_data bound="failing call 7: seek to the header slot" unwind=520
+fault_harness!(tx_commit_fault_07_seek, 7, 0);
+// @ob props=C11,C06 tier=quick cap=1200 mem=16 fns=Tx::commit,TxInner::write_data,DBInner::meta bound="failing call 8: write of the header page (error, nothing written)" unwind=520
+fault_harness!(tx_commit_fault_08_write, 8, 0);
+// @ob props=C11,C06 tier=quick cap=1200 mem=16 fns=Tx::commit,TxInner::write_data,DBInner::meta,Meta::valid bound="call 8 (header page) is a short write of 8 bytes, the next call fails: torn header" unwind=520
+fault_harness!(tx_commit_fault_08_short, 8, 8);
+// @ob props=C11,C06 tier=thorough cap=1200 mem=16 fns=Tx::commit,TxInner::write_data,DBInner::meta bound="failing call 9: flush after the header write" unwind=520
+fault_harness!(tx_commit_fault_09_flush, 9, 0);
+// @ob props=C11,C06 tier=quick cap=1200 mem=16 fns=Tx::commit,TxInner::write_data,DBInner::meta bound="failing call 10: the final sync (header already handed to the OS)" unwind=520
+fault_harness!(tx_commit_fault_10_sync, 10, 0);
